@@ -360,11 +360,16 @@ package bigbuff
 
 //@ type Exclusive as e
 //@   guard mutex : work
+//@   guardmap mutex : work
+//@   inv mutex entries : forall(k, any, has(e.work, k) ==> e.work[k] != nil && e.work[k].mutex != nil && e.work[k].cond != nil)
 
 //@ type exclusiveItem as item
 //@   guard mutex : ts wait running complete count result err work
 //@   cond cond : mutex
 //@   frozen : mutex cond
+//@   inv mutex count : item.count >= 0
+//@   inv mutex done : item.complete ==> !item.running
+//@   inv mutex work : item.count > 0 ==> item.work != nil
 
 //@ type ChanPubSub as x
 //@   guard pongC : pongN
@@ -806,3 +811,47 @@ package bigbuff
 //@   ensures existed : old(has(n.subscribers, key)) && old(has(n.subscribers[key], rv_pointer(rv_of(target))))
 //@   ensures-panic outer_unchanged : n.subscribers == old(n.subscribers) && forall(k, any, has(n.subscribers, k) == old(has(n.subscribers, k)) && n.subscribers[k] == old(n.subscribers[k]))
 //@   ensures-panic inner_unchanged : forall(k, any, forall(p, int, has(n.subscribers[k], p) == old(has(n.subscribers[k], p))))
+
+// ---------------------------------------------------------------------------------------------------
+// C09 / C10 — Exclusive (exclusive.go): mechanism contracts (composition lemma M6 in DESIGN.md)
+
+//@ func (*Exclusive).call
+//@   props C09 C10
+//@   lock-transfer
+//@   panics nilrecv : e == nil
+//@   panics nilwork : c.work == nil
+//@   ensures attach : spawned("(*Exclusive).call$1") == 1 ==> item != nil && has(e.work, c.key) && e.work[c.key] == item && item.count >= 1 && item.work == c.work && item.wait == c.wait
+//@   ensures escape : spawned("(*Exclusive).call$1") == 0 ==> c.start && ret == nil && item.count != 1 && item.count >= 1
+//@   ensures reply : !c.start ==> ret != nil && chancap(ret) == 1 && !closed(ret) && spawned("(*Exclusive).call$1") == 1
+//@   ensures noreply : c.start ==> ret == nil
+//@   ensures atmostone : spawned("(*Exclusive).call$1") <= 1
+
+//@ func (*Exclusive).call$1
+//@   props C09 C10
+//@   modular
+//@   holds W : item.mutex
+//@   releases item.mutex
+//@   requires wired : item != nil && e != nil && item.cond != nil && item.mutex != nil && item.count >= 1 && item.work != nil && e.work != nil
+//@   requires reply : outcome != nil ==> !closed(outcome) && chancap(outcome) == 1
+//@   # count only grows while the item is reachable, and the work map is never reset to nil
+//@   rely attached : item.count >= 1 && e.work != nil
+//@   reads-owned work : the runner reads item.work after it detached the item from the map under both locks; writers (call) prove e.work[key] == item first
+//@   loop 0 invariant waiting : heldW(item.mutex) && inv(item.mutex) && (outcome != nil ==> !closed(outcome) && sent(outcome) == old(sent(outcome)))
+//@   at-call dynamic#0 work : nolocks()
+//@   at-call time.Sleep#0 unlocked : nolocks()
+//@   at-call (*sync.Mutex).Lock#1 completed : oncedone(once) && nolocks()
+//@   at-call (*sync.Mutex).Unlock#1 successor : has(e.work, c.key) && e.work[c.key] == nextItem && nextItem.running && nextItem.mutex == item.mutex && nextItem.cond == item.cond && nextItem.count == 0 && heldW(item.mutex)
+//@   at-call builtin.delete#0 unattached : nextItem.count == 0 && heldW(nextItem.mutex) && heldW(e.mutex) && arg1 == c.key
+//@   # the work function may have called resolve (possibly from another goroutine, possibly not at all)
+//@   after-call dynamic#0 havoc : region:once.done region:chan.sent region:chan.closed region:exclusiveItem.result region:exclusiveItem.err region:exclusiveItem.complete region:exclusiveItem.running
+//@   after-call dynamic#0 assume resolved : (oncedone(once) ==> (outcome != nil ==> sent(outcome) == old(sent(outcome)) + 1 && closed(outcome))) && (!oncedone(once) ==> (outcome != nil ==> sent(outcome) == old(sent(outcome)) && !closed(outcome)))
+//@   ensures answered : outcome != nil ==> sent(outcome) == old(sent(outcome)) + 1 && closed(outcome)
+
+//@ func (*Exclusive).call$1$1$1
+//@   props C10
+//@   modular
+//@   requires reply : outcome != nil ==> !closed(outcome)
+//@   requires wired : item != nil && item.mutex != nil && item.cond != nil
+//@   ensures answered : outcome != nil ==> sent(outcome) == old(sent(outcome)) + 1 && closed(outcome)
+//@   ensures payload : outcome != nil ==> lastsent(outcome).Result == result && lastsent(outcome).Error == err
+//@   ensures stored : item.complete && !item.running && item.result == result && item.err == err
